@@ -53,7 +53,7 @@ def run(ctx):
         for i in range(20 if ctx.quick() else 250):
             cfg = tu.gen_config(ctx.rng)
             cfg.update({"readonly": i % 2 == 0, "fortran": i % 3 == 0, "matrix_lambda": i % 4 == 1,
-                        "vector_beta": (i % 4 == 2 and not cfg["joint"]), "eps": [0, 0.05][i % 5 == 3],
+                        "vector_beta": (i % 4 == 2), "eps": [0, 0.05][i % 5 == 3],
                         "fail": [None, "worker", "wrong-front-end", "no-donor"][(i // 2) % 4] if i % 3 == 1 else None})
             cfgs.append(cfg)
 
